@@ -400,6 +400,7 @@ type Env struct {
 	Ghost   func(name string, args []Term) (Term, bool) // ghost relation in the state this environment describes
 	// Candidates lists in-scope named values that no clause of the contract mentions: when a clause names a local
 	// variable that does not exist (renamed in the code), each candidate is tried and a unique well-typed one is used.
+	Results    func(callee string, k int) (Term, bool) // results of calls made in the body ($result)
 	Candidates func() map[string]Term
 	OnRebind   func(ident, local string)
 }
@@ -420,7 +421,7 @@ type SpecDef struct {
 }
 
 func (env *Env) child() *Env {
-	n := &Env{Vars: map[string]Term{}, Lookup: env.Lookup, Old: env.Old, FieldOf: env.FieldOf, Defs: env.Defs, Sorts: env.Sorts, Funcs: env.Funcs, Pure: env.Pure, Reveal: env.Reveal, Ghost: env.Ghost, Candidates: env.Candidates, OnRebind: env.OnRebind}
+	n := &Env{Vars: map[string]Term{}, Lookup: env.Lookup, Old: env.Old, FieldOf: env.FieldOf, Defs: env.Defs, Sorts: env.Sorts, Funcs: env.Funcs, Pure: env.Pure, Reveal: env.Reveal, Ghost: env.Ghost, Candidates: env.Candidates, OnRebind: env.OnRebind, Results: env.Results}
 	for k, v := range env.Vars {
 		n.Vars[k] = v
 	}
@@ -806,6 +807,22 @@ func callSMT(e *ECall, env *Env) Term {
 		}
 		return toSMT(e.Args[0], &o)
 	}
+	if e.Fn == "$result" {
+		// $result(Callee, k): result k of the last call of Callee made in the function body (root ensures only)
+		if len(e.Args) != 2 || env.Results == nil {
+			specFail("$result(callee, k) is only available in the postconditions of the function being verified")
+		}
+		id, ok1 := e.Args[0].(*EIdent)
+		num, ok2 := e.Args[1].(*ENum)
+		if !ok1 || !ok2 || num.Int == nil {
+			specFail("$result: want $result(Callee, k)")
+		}
+		t, ok := env.Results(id.Name, int(num.Int.Int64()))
+		if !ok {
+			specFail("$result: no call of %s on this path", id.Name)
+		}
+		return t
+	}
 	var a []Term
 	for _, x := range e.Args {
 		a = append(a, toSMT(x, env))
@@ -945,6 +962,23 @@ func callSMT(e *ECall, env *Env) Term {
 			}
 		}
 		return r
+	case "member": // member(e, seq): membership as an uninterpreted predicate with trigger-friendly axioms
+		need(2)
+		if a[1].Sort.Kind != KSeq {
+			specFail("member on %s", a[1].Sort)
+		}
+		var nm string
+		switch a[1].Sort.Elem.Kind {
+		case KInt:
+			nm = "seq.in.Int"
+		case KStr:
+			nm = "seq.in.Str"
+		case KAny:
+			nm = "seq.in.Any"
+		default:
+			specFail("member: element sort %s not supported", a[1].Sort.Elem)
+		}
+		return T(SBool, "(%s %s %s)", nm, a[1].S, a[0].S)
 	case "in": // in(e, seq)
 		need(2)
 		if a[1].Sort.Kind != KSeq {
